@@ -40,17 +40,22 @@ func VerifUpdateTXTimestamp(clientID string, rxt time.Time, txt *time.Time) {
 
 type VerifPair struct{ Rxt, Txt ntp.Time64 }
 
+// VerifItem is a copy of one client's item (no heap allocation, so that a
+// harness can walk all 2^20 positions cheaply).
 type VerifItem struct {
-	Key   string
-	Pairs []VerifPair
-	Qval  ntp.Time64
-	Qidx  int
+	Key  string
+	N    int
+	Buf  [tssItemCap]VerifPair
+	Qval ntp.Time64
+	Qidx int
 }
 
+func (it *VerifItem) Pairs() []VerifPair { return it.Buf[:it.N] }
+
 func verifItem(tssi *tssItem) VerifItem {
-	it := VerifItem{Key: tssi.key, Qval: tssi.qval, Qidx: tssi.qidx}
+	it := VerifItem{Key: tssi.key, N: tssi.len, Qval: tssi.qval, Qidx: tssi.qidx}
 	for i := 0; i != tssi.len; i++ {
-		it.Pairs = append(it.Pairs, VerifPair{tssi.buf[i].rxt, tssi.buf[i].txt})
+		it.Buf[i] = VerifPair{tssi.buf[i].rxt, tssi.buf[i].txt}
 	}
 	return it
 }
@@ -79,6 +84,16 @@ func VerifLocked(f func()) {
 	tssMu.Lock()
 	defer tssMu.Unlock()
 	f()
+}
+
+// VerifRemove removes one client's item, if present.
+func VerifRemove(clientID string) {
+	tssMu.Lock()
+	defer tssMu.Unlock()
+	if tssi, ok := tss[clientID]; ok {
+		heap.Remove(&tssQ, tssi.qidx)
+		delete(tss, tssi.key)
+	}
 }
 
 // VerifReset removes every client for which keep returns false.
